@@ -87,6 +87,9 @@ def run_ops(ops):
 
     client = Cl()
     logs = {}            # callback id -> [encoded events]
+    full_log = []        # everything the catch-all callback 0 has seen so far
+    reg_ops = []         # the onevent / rmonevent calls so far (for the specification's own registry)
+    ever = []            # every callback ever registered, in registration order
     order = []           # registered callback specs, in registration order (as the model keeps them)
     uuids = {}
     fns = {}
@@ -103,19 +106,24 @@ def run_ops(ops):
         fns[key] = None
         return None
 
-    def callback_for(cb):
-        cid = cb["id"]
-        logs.setdefault(cid, [])
-        if cb.get("async"):
-            async def acb(event):
-                logs[cid].append(enc_event(event))
-            return acb
+    class Recorder:
+        """callbacks are bound methods (a fresh, equal-but-not-identical object on every attribute access)"""
 
-        def pcb(event):
-            logs[cid].append(enc_event(event))
-            if cb.get("raises"):
-                raise RuntimeError("callback %d raises" % cid)
-        return pcb
+        def __init__(self, cb):
+            self.cb = cb
+
+        def plain(self, event):
+            logs[self.cb["id"]].append(enc_event(event))
+            full_log.append(enc_event(event)) if self.cb["id"] == 0 else None
+            if self.cb.get("raises"):
+                raise RuntimeError("callback %d raises" % self.cb["id"])
+
+        async def coro(self, event):
+            logs[self.cb["id"]].append(enc_event(event))
+
+    def callback_for(cb):
+        logs.setdefault(cb["id"], [])
+        return Recorder(cb)
 
     fn_objects = {}
     obs = []
@@ -128,20 +136,26 @@ def run_ops(ops):
             exc = None
             before_mirror = enc_mirror(client)
             before_cbs = [dict(c) for c in order]
+            before_reg = list(reg_ops)
+            before_ever = list(ever)
             try:
                 if op[0] == "m":
                     client.process_message(comp_codec.build(op[1]))
                 elif op[0] == "on":
                     cb = op[1]
                     fkey = cb.get("fn", cb["id"])
-                    fn = fn_objects.get(fkey)
-                    if fn is None:
-                        fn = callback_for(cb)
-                        fn_objects[fkey] = fn
+                    rec = fn_objects.get(fkey)
+                    if rec is None:
+                        rec = callback_for(cb)
+                        fn_objects[fkey] = rec
+                    logs.setdefault(cb["id"], [])
+                    fn = rec.coro if cb.get("async") else rec.plain
                     uid = client.onevent(callback=fn, device=cb.get("device"), vector=cb.get("vector"), element=cb.get("element"),
                                          event_type=types[cb.get("type", "base")])
                     uuids[cb["id"]] = uid
                     order.append(cb)
+                    ever.append(cb)
+                    reg_ops.append(enc_op(op))
                 else:
                     c = op[1]
                     kw = {}
@@ -153,22 +167,33 @@ def run_ops(ops):
                     if c.get("type"):
                         kw["event_type"] = types[c["type"]]
                     if c.get("fn") is not None:
-                        kw["callback"] = fn_objects.get(c["fn"], object())
+                        rec = fn_objects.get(c["fn"])
+                        if rec is None:
+                            kw["callback"] = object()
+                        else:
+                            kw["callback"] = rec.coro if rec.cb.get("async") else rec.plain
+                    reg_ops.append(enc_op(op))
                     client.rmonevent(**kw)
                     left = {id(x.callback): x for x in client.callbacks}
                     uu = {x.uuid for x in client.callbacks}
                     order[:] = [cb for cb in order if uuids.get(cb["id"]) in uu]
             except Exception as e:  # noqa
-                exc = type(e).__name__
+                exc = ("AssertionError" if isinstance(e, AssertionError) else "ValueError" if isinstance(e, ValueError)
+                       else "TypeError" if isinstance(e, TypeError) else "KeyError" if isinstance(e, KeyError) else type(e).__name__)
             await asyncio.sleep(0)
             await asyncio.sleep(0)
             deliv = []
             for cb in before_cbs:
                 for ev in logs.get(cb["id"], []):
                     deliv.append("c%d %s" % (cb["id"], ev))
+            deliv_all = []          # the log of every callback ever registered (removed ones must stay silent)
+            for cb in before_ever:
+                for ev in logs.get(cb["id"], []):
+                    deliv_all.append("c%d %s" % (cb["id"], ev))
             handshakes = [getattr(m, "device", None) for m in sent if type(m).__name__ == "EnableBLOB"]
             obs.append({"exc": exc, "before": before_mirror, "after": enc_mirror(client), "deliv": deliv, "sent": handshakes,
-                        "ncb": len(client.callbacks), "cbs": before_cbs})
+                        "ncb": len(client.callbacks), "cbs": before_cbs, "log": list(full_log), "reg": before_reg, "deliv_all": deliv_all,
+                        "has0": any(c["id"] == 0 for c in before_cbs) and any(c["id"] == 0 for c in order)})
 
     asyncio.run(main())
     return obs
@@ -193,8 +218,11 @@ def run_impl(case, outcome):
             if "C15" in want:
                 qs.append(Query("spec c15 %s %s %s %s" % (o["before"], view, enc_bool(o["exc"] is not None), o["after"]), ("True", "na"), "oracle",
                                 "the mirror after a message is the result of applying the INDI client rules, and nothing is raised"))
+            if "C16" in want and o["has0"]:
+                qs.append(Query("spec c16chain %s %s" % (o["after"], enc_list(lambda x: x, o["log"])), "True", "oracle",
+                                "an application that only listens to events holds a stale value: the last announced value of an element differs from its current value"))
             if "C16" in want:
-                qs.append(Query("spec c16 %s %s %s %s" % (enc_list(enc_cb, o["cbs"]), o["before"], view, enc_list(lambda x: x, o["deliv"])),
+                qs.append(Query("spec c16 %s %s %s %s" % (enc_list(lambda x: x, o["reg"]), o["before"], view, enc_list(lambda x: x, o["deliv_all"])),
                                 ("True", "na"), "oracle", "each callback got exactly the events matching its filters; events are exactly the changes"))
     line = enc_list(enc_op, ops)
     outcome.nontrivial.add(line)
@@ -294,10 +322,10 @@ def gen_c15(rng, tier):
 def gen_c16(rng, tier):
     n = 1200 if tier == "thorough" else 200
     for _ in range(n):
-        ops = []
+        ops = [["on", {"id": 0, "type": "base", "fn": 0}]]
         cid = 0
         live = []
-        for m in random_stream(rng, rng.randint(5, 40)):
+        for m in random_stream(rng, rng.randint(5, 40), bad_blob_rate=0.15):
             r = rng.random()
             if r < 0.25:
                 cid += 1
@@ -319,11 +347,23 @@ def gen_c16(rng, tier):
             ops.append(["m", m])
         # every filter combination on one fixed small stream
         yield {"op": "cli", "ops": ops, "oracles": ["C15", "C16"]}
+    # an update whose later child is ill-formed: what was applied before it must have been announced
+    import base64
+    for bad in (("!!!", "0"), ("QUJD", "99"), ("QUJD", "abc"), ("Q", "1")):
+        d = comp_codec.msg_recipe("defBLOBVector", (), [comp_codec.part_recipe("defBLOB", "x", None), comp_codec.part_recipe("defBLOB", "y", None)])
+        d["kw"]["device"], d["kw"]["name"] = "A", "P"
+        good = comp_codec.part_recipe("oneBLOB", "x", base64.b64encode(b"ABC").decode(), {"size": "3", "format": ".x"})
+        worse = comp_codec.part_recipe("oneBLOB", "y", bad[0], {"size": bad[1], "format": ".x"})
+        u = comp_codec.msg_recipe("setBLOBVector", (), [good, worse])
+        u["kw"]["device"], u["kw"]["name"], u["kw"]["state"] = "A", "P", "Busy"
+        u2 = comp_codec.msg_recipe("setBLOBVector", (), [comp_codec.part_recipe("oneBLOB", "x", base64.b64encode(b"ABC").decode(), {"size": "3", "format": ".x"})])
+        u2["kw"]["device"], u2["kw"]["name"], u2["kw"]["state"] = "A", "P", "Busy"
+        yield {"op": "cli", "ops": [["on", {"id": 0, "type": "base", "fn": 0}], ["m", d], ["m", u], ["m", u2]], "oracles": ["C16"]}
     # exhaustive filter combinations {absent, matching, non-matching}^3 x event types
     stream = [["m", def_recipe(rng, "Text", "A", "P")], ["m", set_recipe(rng, "Text", "A", "P")], ["m", def_recipe(rng, "Switch", "B", "Q")],
               ["m", set_recipe(rng, "Switch", "B", "Q")], ["m", set_recipe(rng, "Text", "A", "P")]]
     cid = 0
-    ops = []
+    ops = [["on", {"id": 0, "type": "base", "fn": 0}]]
     for d in (None, "A", "nope"):
         for v in (None, "P", "nope"):
             for e in (None, "x", "nope"):
